@@ -93,7 +93,8 @@ def compare_roundtrip(orig, back):
     for i, (a, b) in enumerate(zip(po[0], pb[0])):
         for k in range(6):
             if a[k] != b[k]:
-                out.append((names[k], "cell %d: %s %d came back as %d" % (i, names[k], a[k], b[k])))
+                sa, sb = (ORI[a[k]], ORI[b[k]]) if k == 5 else (a[k], b[k])
+                out.append((names[k], "cell %d%s: %s %s came back as %s" % (i, " (fixed)" if a[2] else "", names[k], sa, sb)))
     if [[p[0] for p in n] for n in po[1]] != [[p[0] for p in n] for n in pb[1]]:
         out.append(("connectivity", "nets %s came back as %s" % ([[p[0] for p in n] for n in po[1]], [[p[0] for p in n] for n in pb[1]])))
     else:
@@ -155,7 +156,7 @@ def check_bindings(ctx):
         coq_bad = None
         ok, _ = common.coq_make(["Bindings_gen.vo"])
         if ok:
-            r = common.vm_eval("C20", "From Coq Require Import List String.\nRequire Import CV.Ispd CV.Bindings_gen.",
+            r = common.vm_eval("C20", "From Coq Require Import String.\nFrom Coq Require Import List.\nRequire Import CV.Ispd CV.Bindings_gen.",
                                ["map bline (filter (fun b => negb (binding_okb decls b)) bindings)", "length bindings"])
             if r is not None and len(r) == 2:
                 coq_bad = sorted(int(x) for x in re.findall(r"\d+", r[0]))
@@ -184,6 +185,60 @@ def check_bindings(ctx):
     return proof_ok, proof, info, py_bad, problems, tab
 
 
+# ------------------------------------------------------------------ extraction cross-check (vm_compute inside Coq)
+
+VM_HEADER = """From Coq Require Import String.
+From Coq Require Import List ZArith.
+Import ListNotations.
+Require Import CV.Orient CV.Ispd.
+Local Open Scope string_scope.
+Local Open Scope Z_scope.
+Definition oc (o : orient) : Z := match o with oN=>0|oS=>1|oW=>2|oE=>3|oFN=>4|oFS=>5|oFW=>6|oFE=>7|oINVALID=>8|oUNKNOWN=>9 end.
+Definition pc (p : polarity) : Z := match p with pANY=>0|pSAME=>1|pOPPOSITE=>2|pNW=>3|pSE=>4 end.
+Definition b2z (b : bool) : Z := if b then 1 else 0.
+Definition flat (c : circuit) : list Z :=
+  Z.of_nat (length (cells c)) :: flat_map (fun x => [cw x; ch x; b2z (cfixed x); b2z (cobs x); pc (cpol x); cx x; cy x; oc (co x)]) (cells c)
+  ++ Z.of_nat (length (nets c)) :: flat_map (fun n => Z.of_nat (length n) :: flat_map (fun p => [Z.of_nat (pcell p); ppx p; ppy p]) n) (nets c)
+  ++ Z.of_nat (length (rows c)) :: flat_map (fun r => [rminx r; rmaxx r; rminy r; rmaxy r; oc (rorient r)]) (rows c).
+"""
+ORI_COQ = ["oN", "oS", "oW", "oE", "oFN", "oFS", "oFW", "oFE", "oINVALID", "oUNKNOWN"]
+POL_COQ = ["pANY", "pSAME", "pOPPOSITE", "pNW", "pSE"]
+
+
+def coq_circuit(c):
+    z = lambda v: "(%d)" % v
+    b = lambda v: "true" if v else "false"
+    cells, nets, rows = c
+    cs = "; ".join("mkCell %s %s %s %s %s %s %s %s" % (z(w), z(h), b(fx), b(ob), POL_COQ[pol], z(x), z(y), ORI_COQ[o])
+                   for (w, h, fx, ob, pol, x, y, o) in cells)
+    ns = "; ".join("[" + "; ".join("mkPin %d%%nat %s %s" % (ci, z(px), z(py)) for (ci, px, py) in n) + "]" for n in nets if n)
+    rs = "; ".join("mkRow %s %s %s %s %s" % (z(a), z(b_), z(c_), z(d), ORI_COQ[o]) for (a, b_, c_, d, o) in rows)
+    return "(mkCircuit [%s] [%s] [%s])" % (cs, ns, rs)
+
+
+def vm_crosscheck(recs, k=24):
+    """a few cases are evaluated by vm_compute inside Coq and compared with the extracted OCaml code"""
+    pick = sorted((r for r in recs if "model_error" not in r), key=lambda r: len(r["case"]))
+    pick = pick[:k // 2] + pick[len(pick) // 2: len(pick) // 2 + k // 2]
+    exprs = []
+    for r in pick:
+        C = coq_circuit(circuit_of_line(r["case"]))
+        exprs.append('(wfb %s, circuit_hpwl %s, match read_ispd (export_ispd "c" %s) "c" with Some r => 1 :: flat r | None => [0] end)' % (C, C, C))
+    out = common.vm_eval("C20x", VM_HEADER, exprs)
+    if out is None or len(out) != len(pick):
+        return len(pick), [("vm_compute evaluation failed", "", "")]
+    bad = []
+    for r, o in zip(pick, out):
+        wf = "true" in o.split(",")[0]
+        ints = [int(x) for x in re.findall(r"-?\d+", o)]
+        hp, ok, flat = ints[0], ints[1], ints[2:]
+        want_hp = r["m_files"].rsplit(" # ", 1)[1].strip()
+        want_rd = [int(x) for x in r["m_read"].split()[1:]] if r["m_read"].startswith("R ") else None
+        if wf != r["m_wf"] or str(hp) != want_hp or (flat if ok else None) != want_rd:
+            bad.append((r["case"], o[:200], "%s %s %s" % (r["m_wf"], want_hp, r["m_read"][:200])))
+    return len(pick), bad
+
+
 # ------------------------------------------------------------------ the check
 
 def evaluate(ctx, harness, driver, lines, workdir):
@@ -209,22 +264,51 @@ def evaluate(ctx, harness, driver, lines, workdir):
     return recs
 
 
+def scratch_base():
+    """directory for the exported files of one run (5 files per case, removed at the end): a tmpfs when there is one"""
+    for d in ("/dev/shm",):
+        if os.path.isdir(d) and os.access(d, os.W_OK):
+            return d
+    os.makedirs(common.TMP, exist_ok=True)
+    return common.TMP
+
+
+def grid_cases(quick):
+    """exhaustive small sweep: one cell (every size of the list) in each of the eight orientations, fixed or not, with one
+    pin at every offset of [-1, w+1] x [-1, h+1], over a row in each orientation (quick: one row orientation per cell
+    orientation, three sizes; thorough: all 64 orientation pairs, sizes 0..3 x 0..3)"""
+    sizes = [(0, 0), (1, 2), (3, 2)] if quick else [(w, h) for w in range(4) for h in range(4)]
+    out, k = [], 0
+    for (w, h) in sizes:
+        for o in range(8):
+            for ro in ([(3 * o + 1) % 8] if quick else range(8)):
+                for px in range(-1, w + 2):
+                    for py in range(-1, h + 2):
+                        k += 1
+                        out.append("EX g_%d 1 %d %d %d 1 0 %d %d %d 1 1 0 %d %d 1 0 10 %d %d %d" %
+                                   (k, w, h, k % 2, 5 + k % 3, -2 + k % 5, o, px, py, k % 4, k % 4 + 2, ro))
+    return out
+
+
 def run(ctx):
     proof_ok, proof, binfo, bad_bind, bproblems, tab = check_bindings(ctx)
     harness = common.build_harness("ispd")
     driver = common.build_driver("ispd")
-    workdir = os.path.join(common.TMP, "c20_%d" % os.getpid())
+    workdir = os.path.join(scratch_base(), "c20_%d" % os.getpid())
     shutil.rmtree(workdir, ignore_errors=True)
     os.makedirs(workdir)
     try:
-        n = 2400 if ctx.quick else 40000
+        n = 2400 if ctx.quick else 30000
         seeds = [ctx.seed] if ctx.quick else [ctx.seed, ctx.seed + 1000, ctx.seed + 2000]
         lines = list(common.corpus("C20", ("EX ",)))
+        grid = grid_cases(ctx.quick)
+        lines += grid
         for s in seeds:
             lines += common.harness_gen(harness, [s, n // len(seeds)])
         recs = evaluate(ctx, harness, driver, lines, workdir)
     finally:
         shutil.rmtree(workdir, ignore_errors=True)
+    n_vm, vm_bad = vm_crosscheck(recs)
 
     exp_mism, rd_mism, hp_mism, stmt_fail, dom_mism = [], [], [], {}, []
     nontriv = set()
@@ -272,10 +356,13 @@ def run(ctx):
         ifiles, ihp = r["impl"].rsplit(" # ", 1)
         mfiles, mhp = r["m_files"].rsplit(" # ", 1) if " # " in r["m_files"] else (r["m_files"], "?")
         if ifiles != mfiles:
-            like = ifiles == r["m_unfixed"] or any(a == b for a, b in zip(ifiles.split("|")[3:], r["m_unfixed"].split("|")[3:]) if a not in mfiles.split("|"))
-            unfixed_like += 1 if like else 0
             names = ["aux", "nodes", "pl", "nets", "scl"]
-            which = [names[k] for k, (a, b) in enumerate(zip(ifiles.split("|"), mfiles.split("|"))) if a != b]
+            fi, fm, fu = ifiles.split("|"), mfiles.split("|"), r["m_unfixed"].split("|")
+            which = [names[k] for k, (a, b) in enumerate(zip(fi, fm)) if a != b]
+            # every file that differs from the model of the repaired exporter is the file the model of the
+            # UNCHANGED exporter (Ispd.export_ispd_unfixed) prints: the tree under check lacks the F14 repairs
+            like = len(fi) == 5 and len(fu) == 5 and all(fi[k] == fu[k] for k in range(5) if fi[k] != fm[k])
+            unfixed_like += 1 if like else 0
             exp_mism.append((l, "files %s differ: %s" % (",".join(which), first_diff(ifiles, mfiles)), like))
         if ihp.strip() != mhp.strip():
             hp_mism.append((l, ihp, mhp))
@@ -296,14 +383,19 @@ def run(ctx):
             if not r["py"].startswith("R "):
                 stmt_fail.setdefault("reader refused an exported circuit", []).append((l, r["py"], ifiles))
             else:
+                hp = "; Circuit::hpwl %s before, %s after export + read_ispd" % (ihp.strip(), r.get("hpwl_back_impl"))
+                seen_kinds = set()
                 for kind, detail in compare_roundtrip(orig, back):
-                    stmt_fail.setdefault(kind, []).append((l, detail, ifiles))
+                    if kind not in seen_kinds:      # one entry per circuit and kind
+                        stmt_fail.setdefault(kind, []).append((l, detail + hp, ifiles, r.get("hpwl_back_impl") != ihp.strip()))
+                    seen_kinds.add(kind)
                 if not compare_roundtrip(orig, back) and r.get("hpwl_back_impl") != ihp.strip():
                     stmt_fail.setdefault("hpwl", []).append((l, "Circuit::hpwl %s before, %s after export + read_ispd" % (ihp.strip(), r.get("hpwl_back_impl")), ifiles))
 
     # ---- reporting
     for kind, fails in sorted(stmt_fail.items()):
-        l, detail, files = min(fails, key=lambda f: len(f[0]))
+        # the shortest failing circuit, preferring one whose wirelength changes as well
+        l, detail, files = min(fails, key=lambda f: (0 if (len(f) > 3 and f[3]) else 1, len(f[0])))[:3]
         ctx.violation("export + read_ispd does not reproduce the circuit (%s; %d of %d in-domain circuits): %s" % (kind, len(fails), dist["in_domain"], detail),
                       {"case": l, "format": "see harness/ispd.cpp header", "what_differs": kind, "detail": detail,
                        "exported_files(escaped: aux|nodes|pl|nets|scl)": files,
@@ -330,6 +422,9 @@ def run(ctx):
         if dom_mism:
             ctx.violation("Ispd.wfb and the check's own domain test disagree on %d cases" % len(dom_mism),
                           {"broken": "domain (Ispd.wf) vs checks/c20.py in_domain", "first_difference": dom_mism[0]}, found_input=False)
+        if vm_bad:
+            ctx.violation("extracted OCaml model and vm_compute inside Coq disagree on %d of %d cases" % (len(vm_bad), n_vm),
+                          {"broken": "extraction of coq/Ispd.v (ocaml/driver_ispd.ml)", "first_difference": vm_bad[0]}, found_input=False)
         if bproblems:
             ctx.violation("bindings translator / theorem inconsistent: " + "; ".join(bproblems),
                           {"broken": "tools/bindings.py -> coq/Bindings_gen.v -> c20_bindings_ok", "detail": bproblems}, found_input=False)
@@ -346,9 +441,11 @@ def run(ctx):
                 "evaluations": len(lines), "distinct_nontrivial": len(nontriv),
                 "rule": "distinct circuits that are in the domain of c20_roundtrip AND have a pin on a cell whose orientation is not N AND a row whose "
                         "orientation is not N (the inputs on which the unchanged exporter is wrong)",
+                "exhaustive_grid_cases": len(grid),
                 "samples": samples, "input_distribution": dist, "bindings": binfo,
                 "model_vs_impl_differences": {"exporter_bytes": len(exp_mism), "reader": len(rd_mism), "hpwl": len(hp_mism), "domain": len(dom_mism),
-                                              "of_which_equal_to_the_model_of_the_unrepaired_exporter": unfixed_like},
+                                              "of_which_equal_to_the_model_of_the_unrepaired_exporter": unfixed_like,
+                                              "extraction_vs_vm_compute": "%d of %d" % (len(vm_bad), n_vm)},
                 "impl_outputs_violating_statement": {k: len(v) for k, v in stmt_fail.items()},
                 "bindings_violating_statement": len(bad_bind)})
     return ctx.finish(LEVEL, cov, [
@@ -376,7 +473,7 @@ def replay(ctx, path):
         return 1
     harness = common.build_harness("ispd")
     driver = common.build_driver("ispd")
-    workdir = os.path.join(common.TMP, "c20_replay_%d" % os.getpid())
+    workdir = os.path.join(scratch_base(), "c20_replay_%d" % os.getpid())
     os.makedirs(workdir, exist_ok=True)
     try:
         rec = evaluate(ctx, harness, driver, [case], workdir)[0]
